@@ -441,22 +441,24 @@ class WrapperMixin(object):
         """Write a doxygen comment block for a function.
         Uses brief, description, and return from docs.
         """
+        def add_text(prefix, text):
+            # Every line of a multi-line text must be inside the comment.
+            lines = str(text).split("\n")
+            if len(lines) > 1 and lines[-1] == "":
+                lines.pop()  # remove trailing newline
+            output.append(self.doxygen_cont + prefix + lines[0])
+            for line in lines[1:]:
+                output.append(self.doxygen_cont + " " + line)
+
         output.append(self.doxygen_begin)
         if "brief" in docs:
-            output.append(self.doxygen_cont + " \\brief %s" % docs["brief"])
+            add_text(" \\brief ", docs["brief"])
             output.append(self.doxygen_cont)
         if "description" in docs:
-            desc = docs["description"]
-            if desc.endswith("\n"):
-                lines = docs["description"].split("\n")
-                lines.pop()  # remove trailing newline
-            else:
-                lines = [desc]
-            for line in lines:
-                output.append(self.doxygen_cont + " " + line)
+            add_text(" ", docs["description"])
         if "return" in docs:
             output.append(self.doxygen_cont)
-            output.append(self.doxygen_cont + " \\return %s" % docs["return"])
+            add_text(" \\return ", docs["return"])
         output.append(self.doxygen_end)
 
     def document_stmts(self, output, ast, stmt0, stmt1):
